@@ -1,13 +1,22 @@
 (* C14 — backend in-flight (Conns) and failure (Fails) accounting under concurrency:
    executable interleaving model.
-   Mirrors caskethttp/proxy/proxy.go (Proxy.ServeHTTP: select / acquireConn (load + compare-and-swap
-   +1 unless full) / forward / deferred AddInt64 -1 / Fails +1 / timed Fails -1 goroutine; Down,
-   Full, Available) and
-   caskethttp/proxy/upstream.go (staticUpstream.Select shortcuts, the CheckDown closure of
-   NewHost with max_fails, parsing of max_fails / max_conns) and policy.go (First, RoundRobin).
+   Mirrors caskethttp/proxy/proxy.go (Proxy.ServeHTTP: upstream.Select / acquireConn (load, then
+   compare-and-swap +1 unless full, retried when the swap is lost) / forward / deferred AddInt64 -1 /
+   Fails +1 / one sleeping goroutine per failure that does Fails -1; Down, Full, Available) and
+   caskethttp/proxy/upstream.go (staticUpstream.Select: single-host shortcut, all-unavailable scan,
+   then Policy.Select; the CheckDown closure of NewHost with max_fails and the Unhealthy flag that
+   the health-check worker stores; parsing of max_fails / max_conns) and policy.go (First,
+   RoundRobin with its counter kept below the pool length).
+
+   Agents: any number of request goroutines, one expiry goroutine per recorded failure (it may run
+   at ANY time at or after failure time + fail_timeout: no scheduler assumption), the clock, and the
+   health-check worker (it may store any verdict for any host at any time).
 
    One atomic step of the model = one atomic operation of the Go code together with the
-   thread-local code around it.  Definitions only; proofs are in C14_Proofs.v. *)
+   thread-local code around it; upstream.Select is NOT atomic: it starts, evaluates host.Available()
+   for one host after the other — each evaluation being up to three separate atomic loads (Unhealthy,
+   then Fails, then Conns), each a step of its own — and returns.
+   Definitions only; proofs are in C14_Proofs.v. *)
 Require Import V.Lib.
 Open Scope Z_scope.
 
@@ -21,35 +30,46 @@ Inductive outcome :=
 
 (* program counter of one request inside Proxy.ServeHTTP *)
 Inductive pc :=
-| Idle                       (* at the top of the for loop, about to call upstream.Select *)
-| Selected (h : option nat)  (* Select returned (or acquireConn found the host full: None), Conns not yet
-                                incremented: THE WINDOW *)
-| Forwarding (h : nat)       (* between the successful CompareAndSwap(&Conns, n, n+1) of acquireConn and the
-                                deferred AddInt64(&Conns,-1) *)
-| Failed (h : nat)           (* forward returned an error, Conns already decremented, Fails not yet incremented *)
+| Idle                                (* at the top of the for loop, about to call upstream.Select *)
+| Selecting (obs : list (nat * bool)) (cur : option (nat * bool))
+                                      (* inside upstream.Select: the answers of host.Available() obtained so far, newest
+                                         first; cur = Some (h, st): in the middle of host h's Available(): Unhealthy was
+                                         loaded and is 0 (st = false), Fails too and is below max_fails (st = true) *)
+| Selected (h : option nat)           (* Select returned (or acquireConn found the host full: None), nothing counted yet:
+                                         THE WINDOW *)
+| Acquiring (h : nat) (n : Z)         (* inside acquireConn: Conns = n was loaded and is below the cap, the
+                                         CompareAndSwap(&Conns, n, n+1) has not happened yet *)
+| Forwarding (h : nat)                (* between the successful CompareAndSwap of acquireConn and the deferred
+                                         AddInt64(&Conns,-1) *)
+| Failed (h : nat)                    (* forward returned an error, Conns already decremented, Fails not yet incremented *)
 | Done (code : Z).
 
 Record config := {
   c_hosts : nat;             (* size of the pool *)
   c_max_conns : Z;           (* max_conns, 0 (or less) = unlimited *)
   c_max_fails : Z;           (* max_fails as stored (int32) *)
-  c_fail_timeout : Z;        (* fail_timeout in clock units; <= 0 disables failure counting *)
-  c_unhealthy : nat -> bool  (* health-check verdict, static here *)
+  c_fail_timeout : Z         (* fail_timeout in clock units; <= 0 disables failure counting *)
+}.
+
+(* one recorded failure and its own expiry event *)
+Record frec := {
+  f_host : nat;
+  f_at : Z;                  (* clock when Fails was incremented *)
+  f_fired : option Z         (* clock when its expiry goroutine did Fails -1; None = still asleep *)
 }.
 
 Record state := {
   conns : nat -> Z;              (* UpstreamHost.Conns *)
   fails : nat -> Z;              (* UpstreamHost.Fails *)
-  timers : list (nat * Z);       (* sleeping expiry goroutines: (host, deadline) *)
-  fired : list (nat * Z);        (* ghost: expiry goroutines that have run *)
-  flog : list (nat * Z);         (* ghost: every recorded failure (host, time recorded) *)
+  unhealthy : nat -> bool;       (* UpstreamHost.Unhealthy != 0, written by the health-check worker *)
+  flog : list frec;              (* ghost: every failure ever recorded, in order, each with its expiry event *)
   now : Z;                       (* clock *)
   threads : list pc;
   robin : N                      (* RoundRobin.robin *)
 }.
 
 Definition down (c : config) (s : state) (h : nat) : bool :=
-  c_unhealthy c h || (c_max_fails c <=? fails s h).
+  unhealthy s h || (c_max_fails c <=? fails s h).
 Definition full (c : config) (s : state) (h : nat) : bool :=
   (0 <? c_max_conns c) && (c_max_conns c <=? conns s h).
 Definition available (c : config) (s : state) (h : nat) : bool :=
@@ -69,42 +89,62 @@ Fixpoint set_nth {A} (l : list A) (i : nat) (v : A) : list A :=
   | x :: r, S k => x :: set_nth r k v
   end.
 
-Fixpoint remove_nth {A} (l : list A) (k : nat) : list A :=
-  match l, k with
-  | [], _ => []
-  | _ :: r, O => r
-  | x :: r, S j => x :: remove_nth r j
-  end.
-
 Definition bump (f : nat -> Z) (h : nat) (d : Z) : nat -> Z :=
   fun x => if Nat.eqb x h then f x + d else f x.
+Definition setb (f : nat -> bool) (h : nat) (b : bool) : nat -> bool :=
+  fun x => if Nat.eqb x h then b else f x.
+Definition bool_eqb (a b : bool) : bool := if a then b else negb b.
 
 Definition is_fwd (h : nat) (p : pc) : bool :=
   match p with Forwarding h' => Nat.eqb h h' | _ => false end.
-Definition is_sel (h : nat) (p : pc) : bool :=
-  match p with Selected (Some h') => Nat.eqb h h' | _ => false end.
-Definition in_window (p : pc) : bool :=
-  match p with Selected (Some _) => true | _ => false end.
 Definition is_done (p : pc) : bool :=
   match p with Done _ => true | _ => false end.
-Definition for_host (h : nat) (e : nat * Z) : bool := Nat.eqb h (fst e).
+
+Definition asleep (f : frec) : bool := match f_fired f with None => true | Some _ => false end.
+Definition on_host (h : nat) (f : frec) : bool := Nat.eqb h (f_host f).
+Definition fire (f : frec) (w : Z) : frec := {| f_host := f_host f; f_at := f_at f; f_fired := Some w |}.
+
+(* record updates *)
+Definition set_threads (s : state) (th : list pc) : state :=
+  {| conns := conns s; fails := fails s; unhealthy := unhealthy s; flog := flog s; now := now s;
+     threads := th; robin := robin s |}.
+Definition set_conns (s : state) (f : nat -> Z) : state :=
+  {| conns := f; fails := fails s; unhealthy := unhealthy s; flog := flog s; now := now s;
+     threads := threads s; robin := robin s |}.
+Definition set_fails (s : state) (f : nat -> Z) (l : list frec) : state :=
+  {| conns := conns s; fails := f; unhealthy := unhealthy s; flog := l; now := now s;
+     threads := threads s; robin := robin s |}.
+Definition set_now (s : state) (t : Z) : state :=
+  {| conns := conns s; fails := fails s; unhealthy := unhealthy s; flog := flog s; now := t;
+     threads := threads s; robin := robin s |}.
+Definition set_unhealthy (s : state) (u : nat -> bool) : state :=
+  {| conns := conns s; fails := fails s; unhealthy := u; flog := flog s; now := now s;
+     threads := threads s; robin := robin s |}.
+Definition set_robin (s : state) (r : N) : state :=
+  {| conns := conns s; fails := fails s; unhealthy := unhealthy s; flog := flog s; now := now s;
+     threads := threads s; robin := r |}.
 
 (* ---- the transition system ---- *)
 Inductive label :=
 | LSpawn                           (* a new request enters ServeHTTP *)
-| LSelect (t : nat)                (* upstream.Select(r) *)
-| LBegin (t : nat)                 (* host.acquireConn(): the load that sees the host full (-> no-host path), or the
-                                      successful CompareAndSwapInt64(&host.Conns, n, n+1) with n below the cap, after
-                                      which the request enters proxy.ServeHTTP; a failed CAS changes nothing and is
-                                      retried, so it is not a step *)
+| LSelStart (t : nat)              (* the request enters upstream.Select(r) *)
+| LSelRead (t : nat) (h : nat)     (* the next atomic load of host h's Available() inside Select (the scan of
+                                      staticUpstream.Select or the policy): Unhealthy, then Fails, then Conns *)
+| LSelEnd (t : nat) (ho : option nat) (r : N)
+                                   (* Select returns ho; the policy's counter becomes r.  Which answers are
+                                      possible after which reads is the policy's contract [pol] *)
+| LLoad (t : nat)                  (* acquireConn: n := LoadInt64(&host.Conns); at the cap -> refused (no-host path) *)
+| LCas (t : nat)                   (* acquireConn: CompareAndSwapInt64(&host.Conns, n, n+1); lost -> load again *)
 | LNoHost (t : nat) (again : bool) (* Select returned nil / acquireConn returned false: keepRetrying decides *)
 | LFinish (t : nat) (o : outcome)  (* forward returns/panics; deferred atomic.AddInt64(&host.Conns, -1) *)
-| LRecord (t : nat) (again : bool) (* atomic.AddInt32(&host.Fails, 1) + go timer; keepRetrying decides *)
-| LFire (k : nat)                  (* k-th sleeping goroutine wakes (its deadline has passed): Fails -1 *)
-| LTick (d : Z).                   (* time passes *)
+| LRecord (t : nat) (again : bool) (* atomic.AddInt32(&host.Fails, 1) + go expiry goroutine; keepRetrying decides *)
+| LFire (k : nat)                  (* the expiry goroutine of the k-th recorded failure runs: Fails -1.  Enabled from
+                                      failure time + fail_timeout on, at any later moment *)
+| LTick (d : Z)                    (* time passes *)
+| LHealth (h : nat) (b : bool).    (* the health-check worker stores Unhealthy(h) := b *)
 
-(* a selector stands for upstream.Select: it reads the state and may advance the policy's counter *)
-Definition selector := state -> option nat * N.
+(* what a Select may answer after the reads it made: [pol obs ho] *)
+Definition policy := list (nat * bool) -> option nat -> bool.
 
 Definition after_forward (o : outcome) (h : nat) : pc :=
   match o with
@@ -117,152 +157,192 @@ Definition after_forward (o : outcome) (h : nat) : pc :=
 
 Definition retry_pc (again : bool) : pc := if again then Idle else Done 502.
 
-Definition step (c : config) (sel : selector) (s : state) (l : label) : option state :=
+(* host.Available() = !Down() && !Full(), Down() = Unhealthy != 0 || Fails >= MaxFails (short-circuit), one load at a time *)
+Definition read_next (c : config) (s : state) (h : nat) (obs : list (nat * bool)) (cur : option (nat * bool)) : option pc :=
+  match cur with
+  | None =>                                   (* atomic.LoadInt32(&uh.Unhealthy) *)
+      Some (if unhealthy s h then Selecting ((h, false) :: obs) None else Selecting obs (Some (h, false)))
+  | Some (h', st) =>
+      if Nat.eqb h h' then
+        if st
+        then                                  (* atomic.LoadInt64(&uh.Conns) in Full() *)
+          Some (Selecting ((h, negb (full c s h)) :: obs) None)
+        else                                  (* atomic.LoadInt32(&uh.Fails) >= u.MaxFails *)
+          Some (if c_max_fails c <=? fails s h then Selecting ((h, false) :: obs) None else Selecting obs (Some (h, true)))
+      else None
+  end.
+
+Definition step (c : config) (pol : policy) (s : state) (l : label) : option state :=
   match l with
-  | LSpawn =>
-      Some {| conns := conns s; fails := fails s; timers := timers s; fired := fired s; flog := flog s;
-              now := now s; threads := threads s ++ [Idle]; robin := robin s |}
-  | LSelect t =>
+  | LSpawn => Some (set_threads s (threads s ++ [Idle]))
+  | LSelStart t =>
       match nth_error (threads s) t with
-      | Some Idle =>
-          let '(h, r) := sel s in
-          Some {| conns := conns s; fails := fails s; timers := timers s; fired := fired s; flog := flog s;
-                  now := now s; threads := set_nth (threads s) t (Selected h); robin := r |}
+      | Some Idle => Some (set_threads s (set_nth (threads s) t (Selecting [] None)))
       | _ => None
       end
-  | LBegin t =>
+  | LSelRead t h =>
+      match nth_error (threads s) t with
+      | Some (Selecting obs cur) =>
+          match read_next c s h obs cur with
+          | Some p => Some (set_threads s (set_nth (threads s) t p))
+          | None => None
+          end
+      | _ => None
+      end
+  | LSelEnd t ho r =>
+      match nth_error (threads s) t with
+      | Some (Selecting obs None) =>
+          if pol obs ho then Some (set_robin (set_threads s (set_nth (threads s) t (Selected ho))) r) else None
+      | _ => None
+      end
+  | LLoad t =>
       match nth_error (threads s) t with
       | Some (Selected (Some h)) =>
-          if full c s h
-          then Some {| conns := conns s; fails := fails s; timers := timers s; fired := fired s;
-                       flog := flog s; now := now s; threads := set_nth (threads s) t (Selected None);
-                       robin := robin s |}
-          else Some {| conns := bump (conns s) h 1; fails := fails s; timers := timers s; fired := fired s;
-                       flog := flog s; now := now s; threads := set_nth (threads s) t (Forwarding h);
-                       robin := robin s |}
+          Some (set_threads s (set_nth (threads s) t
+                 (if full c s h then Selected None else Acquiring h (conns s h))))
+      | _ => None
+      end
+  | LCas t =>
+      match nth_error (threads s) t with
+      | Some (Acquiring h n) =>
+          if conns s h =? n
+          then Some (set_conns (set_threads s (set_nth (threads s) t (Forwarding h))) (bump (conns s) h 1))
+          else Some (set_threads s (set_nth (threads s) t (Selected (Some h))))
       | _ => None
       end
   | LNoHost t again =>
       match nth_error (threads s) t with
-      | Some (Selected None) =>
-          Some {| conns := conns s; fails := fails s; timers := timers s; fired := fired s; flog := flog s;
-                  now := now s; threads := set_nth (threads s) t (retry_pc again); robin := robin s |}
+      | Some (Selected None) => Some (set_threads s (set_nth (threads s) t (retry_pc again)))
       | _ => None
       end
   | LFinish t o =>
       match nth_error (threads s) t with
       | Some (Forwarding h) =>
-          Some {| conns := bump (conns s) h (-1); fails := fails s; timers := timers s; fired := fired s;
-                  flog := flog s; now := now s; threads := set_nth (threads s) t (after_forward o h);
-                  robin := robin s |}
+          Some (set_conns (set_threads s (set_nth (threads s) t (after_forward o h))) (bump (conns s) h (-1)))
       | _ => None
       end
   | LRecord t again =>
       match nth_error (threads s) t with
       | Some (Failed h) =>
           if 0 <? c_fail_timeout c then
-            Some {| conns := conns s; fails := bump (fails s) h 1;
-                    timers := timers s ++ [(h, now s + c_fail_timeout c)]; fired := fired s;
-                    flog := flog s ++ [(h, now s)];
-                    now := now s; threads := set_nth (threads s) t (retry_pc again); robin := robin s |}
-          else
-            Some {| conns := conns s; fails := fails s; timers := timers s; fired := fired s; flog := flog s;
-                    now := now s; threads := set_nth (threads s) t (retry_pc again); robin := robin s |}
+            Some (set_fails (set_threads s (set_nth (threads s) t (retry_pc again)))
+                            (bump (fails s) h 1)
+                            (flog s ++ [{| f_host := h; f_at := now s; f_fired := None |}]))
+          else Some (set_threads s (set_nth (threads s) t (retry_pc again)))
       | _ => None
       end
   | LFire k =>
-      match nth_error (timers s) k with
-      | Some (h, d) =>
-          if d <=? now s then
-            Some {| conns := conns s; fails := bump (fails s) h (-1); timers := remove_nth (timers s) k;
-                    fired := (h, d) :: fired s; flog := flog s; now := now s; threads := threads s;
-                    robin := robin s |}
+      match nth_error (flog s) k with
+      | Some f =>
+          if asleep f && (f_at f + c_fail_timeout c <=? now s)
+          then Some (set_fails s (bump (fails s) (f_host f) (-1)) (set_nth (flog s) k (fire f (now s))))
           else None
       | None => None
       end
-  | LTick d =>
-      if 0 <=? d then
-        Some {| conns := conns s; fails := fails s; timers := timers s; fired := fired s; flog := flog s;
-                now := now s + d; threads := threads s; robin := robin s |}
-      else None
+  | LTick d => if 0 <=? d then Some (set_now s (now s + d)) else None
+  | LHealth h b => Some (set_unhealthy s (setb (unhealthy s) h b))
   end.
 
-Fixpoint run (c : config) (sel : selector) (s : state) (ls : list label) : option state :=
+Fixpoint run (c : config) (pol : policy) (s : state) (ls : list label) : option state :=
   match ls with
   | [] => Some s
-  | l :: r => match step c sel s l with Some s' => run c sel s' r | None => None end
+  | l :: r => match step c pol s l with Some s' => run c pol s' r | None => None end
   end.
 
-Definition init (r : N) : state :=
-  {| conns := fun _ => 0; fails := fun _ => 0; timers := []; fired := []; flog := []; now := 0;
+(* the idle server: no request, no failure; policy counter r and health verdicts u arbitrary *)
+Definition init (r : N) (u : nat -> bool) : state :=
+  {| conns := fun _ => 0; fails := fun _ => 0; unhealthy := u; flog := []; now := 0;
      threads := []; robin := r |}.
 
 (* every state any scheduler can produce from the idle server, with any number of requests *)
-Definition reachable (c : config) (sel : selector) (s : state) : Prop :=
-  exists r ls, run c sel (init r) ls = Some s.
+Definition reachable (c : config) (pol : policy) (s : state) : Prop :=
+  exists r u ls, run c pol (init r u) ls = Some s.
 
-Definition sel_sound (c : config) (sel : selector) : Prop :=
-  forall s h r, sel s = (Some h, r) -> available c s h = true.
+(* ---- contracts of Select ---- *)
+Definition obs_has (obs : list (nat * bool)) (h : nat) (b : bool) : bool :=
+  existsb (fun e : nat * bool => Nat.eqb (fst e) h && bool_eqb (snd e) b) obs.
+(* no contract at all: Select may answer anything *)
+Definition pol_any : policy := fun _ _ => true.
+(* every policy of policy.go behind staticUpstream.Select: a host is returned only after one of this
+   Select's own reads found it available; nil only after every host was read unavailable *)
+Definition pol_std (hosts : nat) : policy :=
+  fun obs ho =>
+    match ho with
+    | Some h => obs_has obs h true
+    | None => forallb (fun h => obs_has obs h false) (seq 0 hosts)
+    end.
+Definition pol_sound (pol : policy) : Prop :=
+  forall obs h, pol obs (Some h) = true -> In (h, true) obs.
 
 (* ---- observables the property talks about ---- *)
-(* failures recorded for h whose fail_timeout has not yet elapsed *)
+(* failures of h whose expiry event has not fired *)
+Definition pending (s : state) (h : nat) : Z := cnt (fun f => on_host h f && asleep f) (flog s).
+(* failures recorded for h whose fail_timeout has not yet elapsed on the clock *)
 Definition unexpired (c : config) (s : state) (h : nat) : Z :=
-  cnt (fun e => Nat.eqb h (fst e) && (now s <? snd e + c_fail_timeout c)) (flog s).
-(* no expiry goroutine is overdue (timers run on time) *)
-Definition prompt (s : state) : Prop := forall e, In e (timers s) -> now s < snd e.
-Definition promptb (s : state) : bool := forallb (fun e => now s <? snd e) (timers s).
+  cnt (fun f => on_host h f && (now s <? f_at f + c_fail_timeout c)) (flog s).
+(* no expiry goroutine is overdue (timers run on time) — an ASSUMPTION of a few theorems only *)
+Definition prompt (c : config) (s : state) : Prop :=
+  forall f, In f (flog s) -> f_fired f = None -> now s < f_at f + c_fail_timeout c.
+Definition promptb (c : config) (s : state) : bool :=
+  forallb (fun f => negb (asleep f) || (now s <? f_at f + c_fail_timeout c)) (flog s).
+Definition all_fired (s : state) : bool := forallb (fun f => negb (asleep f)) (flog s).
+Definition is_spawn (l : label) : bool := match l with LSpawn => true | _ => false end.
+Definition is_selstart (t : nat) (l : label) : bool :=
+  match l with LSelStart t' => Nat.eqb t t' | _ => false end.
+Definition is_heal (h : nat) (l : label) : bool :=
+  match l with LHealth h' false => Nat.eqb h h' | _ => false end.
 
-(* ---- concrete selectors: staticUpstream.Select + policy ---- *)
-Definition U32 : N := 4294967296%N.
+(* ---- Policy.Select as a function of the state it reads (used when nothing else moves during the
+   call: the correspondence harness) ---- *)
+Definition psel := state -> option nat * N.
 
-(* First (and the single-host shortcut, and the all-unavailable shortcut): lowest available index *)
-Definition sel_first (c : config) : selector :=
+(* First: lowest available index *)
+Definition pol_first (c : config) : psel :=
   fun s => (find (available c s) (seq 0 (c_hosts c)), robin s).
 
+(* RoundRobin: robin = (robin + 1) % poolLen, at most poolLen probes *)
 Fixpoint rr_loop (c : config) (s : state) (n : N) (r : N) (fuel : nat) : option nat * N :=
   match fuel with
   | O => (None, r)
-  | S f => let r' := ((r + 1) mod U32)%N in
-           let h := N.to_nat (r' mod n)%N in
+  | S f => let r' := ((r + 1) mod n)%N in
+           let h := N.to_nat r' in
            if available c s h then (Some h, r') else rr_loop c s n r' f
   end.
+Definition pol_rr (c : config) : psel :=
+  fun s => rr_loop c s (N.of_nat (c_hosts c)) (robin s) (c_hosts c).
 
-Definition sel_rr (c : config) : selector :=
-  fun s =>
-    match c_hosts c with
-    | O => (None, robin s)
-    | S O => (if available c s 0%nat then Some 0%nat else None, robin s)
-    | n => if existsb (available c s) (seq 0 n)
-           then rr_loop c s (N.of_nat n) (robin s) n
-           else (None, robin s)
-    end.
+Definition psel_of (pol : N) (c : config) : psel :=
+  if (pol =? 0)%N then pol_first c else pol_rr c.
 
-Definition sel_of (pol : N) (c : config) : selector :=
-  if (pol =? 0)%N then sel_first c else sel_rr c.
+(* Randomised and hashing policies are replayed from the answer that was observed; whether that
+   answer was a legal one is decided by the contract [pol_std] inside [step] (and [oracle_ok]) *)
+Definition psel_hint (ho : option nat) : psel := fun s => (ho, robin s).
 
-(* Randomised policies (Random, LeastConn with its random tie-break) are replayed from the choices
-   that were observed: the tape is indexed by the policy counter, so this is still ONE fixed
-   selection function of the state and every theorem about [reachable c sel] applies to it.
-   Whether each taped choice was a legal answer of the policy is checked by [oracle_ok]. *)
-Definition sel_tape (tape : list (option nat)) : selector :=
-  fun s => (nth (N.to_nat (robin s)) tape None, (robin s + 1)%N).
+Definition psel_sound (c : config) (ps : psel) : Prop :=
+  forall s h r, ps s = (Some h, r) -> available c s h = true.
 
 (* =====================================================================================
    Correspondence cases
    ===================================================================================== *)
 
-(* one step of the harness driver: it releases exactly one blocked request until its next
+(* one step of the harness driver: it releases exactly one blocked agent until its next
    blocking point (or sleeps) *)
 Inductive hstep :=
-| HSelect (t : nat)                              (* run upstream.Select *)
+| HSelect (t : nat)                              (* run upstream.Select from entry to return *)
+| HSelScan (t : nat)                             (* gated policy: Select up to the call of Policy.Select (or to its
+                                                    return when the policy is not consulted) *)
+| HSelPol (t : nat)                              (* gated policy: Policy.Select and the return of Select *)
 | HBegin (t : nat) (again : bool)                (* leave the window: acquireConn and enter the transport, or the no-host branch
                                                     (nil host, or the host has become full) *)
 | HStream (t : nat)                              (* backend answers headers, body still streaming *)
 | HFinish (t : nat) (o : outcome) (again : bool) (* the round trip ends with o *)
-| HWait (d : Z).                                 (* d clock units pass; due expiry goroutines run *)
+| HWait (d : Z)                                  (* d clock units pass; due expiry goroutines run *)
+| HHealth (h : nat) (b : bool).                  (* the health-check worker finishes its check of host h with verdict
+                                                    unhealthy = b *)
 
 Inductive ev :=
 | EvSel (h : option nat)   (* Select returned host h / nil *)
+| EvMid                    (* blocked at the entry of Policy.Select *)
 | EvFwd (h : nat)          (* request arrived in the transport of host h *)
 | EvDone (code : Z)        (* Proxy.ServeHTTP returned code (panic = -1) *)
 | EvIdle                   (* back at the top of the retry loop *)
@@ -272,6 +352,7 @@ Definition ev_eqb (a b : ev) : bool :=
   match a, b with
   | EvSel None, EvSel None => true
   | EvSel (Some x), EvSel (Some y) => Nat.eqb x y
+  | EvMid, EvMid => true
   | EvFwd x, EvFwd y => Nat.eqb x y
   | EvDone x, EvDone y => x =? y
   | EvIdle, EvIdle => true
@@ -279,53 +360,128 @@ Definition ev_eqb (a b : ev) : bool :=
   | _, _ => false
   end.
 
-(* per-host snapshot taken while every request is blocked:
-   (Conns, Fails, forwards measured inside the transport, Down(), Full()) *)
-Definition hsnap := (Z * Z * Z * bool * bool)%type.
+(* per-host snapshot taken while every agent is blocked:
+   (Conns, Fails, forwards measured inside the transport, Down(), Full(), Unhealthy != 0) *)
+Definition hsnap := (Z * Z * Z * bool * bool * bool)%type.
 
 Definition pc_ev (p : option pc) : ev :=
   match p with
   | Some (Done c) => EvDone c
   | Some Idle => EvIdle
+  | Some (Selecting _ _) => EvMid
   | Some (Selected h) => EvSel h
   | Some (Forwarding h) => EvFwd h
   | _ => EvNone
   end.
 
-Fixpoint first_due (ts : list (nat * Z)) (nw : Z) (k : nat) : option nat :=
-  match ts with
+(* index of the first failure whose expiry goroutine is due *)
+Fixpoint first_due (ft : Z) (fl : list frec) (nw : Z) (k : nat) : option nat :=
+  match fl with
   | [] => None
-  | (_, d) :: r => if d <=? nw then Some k else first_due r nw (S k)
+  | f :: r => if asleep f && (f_at f + ft <=? nw) then Some k else first_due ft r nw (S k)
   end.
 
-Fixpoint fire_due (c : config) (sel : selector) (s : state) (fuel : nat) : option state :=
+Fixpoint fire_due (c : config) (pol : policy) (s : state) (fuel : nat) : option state :=
   match fuel with
   | O => Some s
-  | S f => match first_due (timers s) (now s) 0 with
+  | S f => match first_due (c_fail_timeout c) (flog s) (now s) 0 with
            | None => Some s
-           | Some k => match step c sel s (LFire k) with
-                       | Some s' => fire_due c sel s' f
+           | Some k => match step c pol s (LFire k) with
+                       | Some s' => fire_due c pol s' f
                        | None => None
                        end
            end
   end.
 
-Definition hexec (c : config) (sel : selector) (s : state) (h : hstep) : option (state * ev) :=
+(* the loads of one host.Available() in a state that does not change meanwhile *)
+Definition avail_labels (c : config) (s : state) (t : nat) (h : nat) : list label :=
+  repeat (LSelRead t h) (if unhealthy s h then 1%nat else if c_max_fails c <=? fails s h then 2%nat else 3%nat).
+
+(* the hosts read by the all-unavailable scan of staticUpstream.Select: up to the first available one *)
+Fixpoint scan_reads (c : config) (s : state) (hs : list nat) : list nat :=
+  match hs with
+  | [] => []
+  | h :: r => if available c s h then [h] else h :: scan_reads c s r
+  end.
+
+(* staticUpstream.Select up to the call of the policy: the single-host shortcut and the
+   all-unavailable shortcut return without consulting it *)
+Definition sel_scan (c : config) (pol : policy) (s : state) (t : nat) : option state :=
+  match step c pol s (LSelStart t) with
+  | Some s1 =>
+      match c_hosts c with
+      | 1%nat =>
+          match run c pol s1 (avail_labels c s t 0%nat) with
+          | Some s2 => step c pol s2 (LSelEnd t (if available c s 0%nat then Some 0%nat else None) (robin s))
+          | None => None
+          end
+      | n =>
+          match run c pol s1 (flat_map (avail_labels c s t) (scan_reads c s (seq 0 n))) with
+          | Some s2 => if existsb (available c s) (seq 0 n) then Some s2
+                       else step c pol s2 (LSelEnd t None (robin s))
+          | None => None
+          end
+      end
+  | None => None
+  end.
+
+(* Policy.Select [ps] on the pool as it is now, and the return of Select *)
+Definition sel_policy (c : config) (pol : policy) (ps : psel) (s : state) (t : nat) : option state :=
+  match nth_error (threads s) t with
+  | Some (Selecting _ _) =>
+      let '(ho, r) := ps s in
+      match run c pol s (flat_map (avail_labels c s t) (seq 0 (c_hosts c))) with
+      | Some s1 => step c pol s1 (LSelEnd t ho r)
+      | None => None
+      end
+  | _ => None
+  end.
+
+(* acquireConn with nothing else moving: the load, then the compare-and-swap (which then succeeds) *)
+Definition acquire (c : config) (pol : policy) (s : state) (t : nat) : option state :=
+  match step c pol s (LLoad t) with
+  | Some s1 =>
+      match nth_error (threads s1) t with
+      | Some (Acquiring _ _) => step c pol s1 (LCas t)
+      | _ => Some s1
+      end
+  | None => None
+  end.
+
+Definition hexec (c : config) (pol : policy) (ps : psel) (s : state) (h : hstep) : option (state * ev) :=
   match h with
   | HSelect t =>
-      match step c sel s (LSelect t) with
-      | Some s' => Some (s', pc_ev (nth_error (threads s') t))
+      match sel_scan c pol s t with
+      | Some s1 =>
+          match nth_error (threads s1) t with
+          | Some (Selecting _ _) =>
+              match sel_policy c pol ps s1 t with
+              | Some s2 => Some (s2, pc_ev (nth_error (threads s2) t))
+              | None => None
+              end
+          | p => Some (s1, pc_ev p)
+          end
+      | None => None
+      end
+  | HSelScan t =>
+      match sel_scan c pol s t with
+      | Some s1 => Some (s1, pc_ev (nth_error (threads s1) t))
+      | None => None
+      end
+  | HSelPol t =>
+      match sel_policy c pol ps s t with
+      | Some s1 => Some (s1, pc_ev (nth_error (threads s1) t))
       | None => None
       end
   | HBegin t again =>
       match nth_error (threads s) t with
       | Some (Selected (Some _)) =>
-          match step c sel s (LBegin t) with
+          match acquire c pol s t with
           | Some s1 =>
               match nth_error (threads s1) t with
               | Some (Selected None) =>
                   (* acquireConn found the host full: the same path as a nil host *)
-                  match step c sel s1 (LNoHost t again) with
+                  match step c pol s1 (LNoHost t again) with
                   | Some s2 => Some (s2, pc_ev (nth_error (threads s2) t))
                   | None => None
                   end
@@ -334,7 +490,7 @@ Definition hexec (c : config) (sel : selector) (s : state) (h : hstep) : option 
           | None => None
           end
       | Some (Selected None) =>
-          match step c sel s (LNoHost t again) with
+          match step c pol s (LNoHost t again) with
           | Some s' => Some (s', pc_ev (nth_error (threads s') t))
           | None => None
           end
@@ -346,10 +502,10 @@ Definition hexec (c : config) (sel : selector) (s : state) (h : hstep) : option 
       | _ => None
       end
   | HFinish t o again =>
-      match step c sel s (LFinish t o) with
+      match step c pol s (LFinish t o) with
       | Some s1 =>
           match o with
-          | OError => match step c sel s1 (LRecord t again) with
+          | OError => match step c pol s1 (LRecord t again) with
                       | Some s2 => Some (s2, pc_ev (nth_error (threads s2) t))
                       | None => None
                       end
@@ -358,100 +514,114 @@ Definition hexec (c : config) (sel : selector) (s : state) (h : hstep) : option 
       | None => None
       end
   | HWait d =>
-      match step c sel s (LTick d) with
-      | Some s1 => match fire_due c sel s1 (length (timers s1)) with
+      match step c pol s (LTick d) with
+      | Some s1 => match fire_due c pol s1 (length (flog s1)) with
                    | Some s2 => Some (s2, EvNone)
                    | None => None
                    end
       | None => None
       end
+  | HHealth h b =>
+      match step c pol s (LHealth h b) with
+      | Some s1 => Some (s1, EvNone)
+      | None => None
+      end
   end.
-
-Definition bool_eqb (a b : bool) : bool := if a then b else negb b.
 
 (* model state vs the observed snapshot (the transport's own count is not a model observable
    except that the model says it equals Conns in a blocked state) *)
 Definition snap_agrees (c : config) (s : state) (sn : list hsnap) : bool :=
   (length sn =? c_hosts c)%nat &&
   forallb (fun hx : nat * hsnap =>
-             let '(h, (oc, of, oi, od, ofl)) := hx in
+             let '(h, (oc, of, oi, od, ofl, ou)) := hx in
              (conns s h =? oc) && (fails s h =? of) && (cnt (is_fwd h) (threads s) =? oi) &&
-             bool_eqb (down c s h) od && bool_eqb (full c s h) ofl)
+             bool_eqb (down c s h) od && bool_eqb (full c s h) ofl && bool_eqb (unhealthy s h) ou)
           (combine (seq 0 (length sn)) sn).
 
-(* contract of the randomised policies on the state they read: Random returns some available
-   host, LeastConn an available host with the fewest connections, nil only when none is available *)
+(* extra contract of LeastConn on the state its policy call reads: an available host with the fewest
+   connections (the rest — an available host, nil only when none is — is [pol_std] for every policy) *)
 Definition oracle_ok (pol : N) (c : config) (s : state) (e : ev) : bool :=
-  if (pol <? 2)%N then true else
   match e with
   | EvSel (Some h) =>
-      (h <? c_hosts c)%nat && available c s h &&
+      (h <? c_hosts c)%nat &&
       (if (pol =? 3)%N
        then forallb (fun h' => negb (available c s h') || (conns s h <=? conns s h')) (seq 0 (c_hosts c))
        else true)
-  | EvSel None => negb (existsb (available c s) (seq 0 (c_hosts c)))
   | _ => true
   end.
 
-Definition tape_of (tr : list (hstep * ev * list hsnap)) : list (option nat) :=
-  flat_map (fun x : hstep * ev * list hsnap =>
-              match x with
-              | (HSelect _, EvSel h, _) => [h]
-              | _ => []
-              end) tr.
+Definition ev_choice (e : ev) : option nat := match e with EvSel ho => ho | _ => None end.
 
-Fixpoint model_trace (pol : N) (c : config) (sel : selector) (s : state) (tr : list (hstep * ev * list hsnap)) : bool :=
+Fixpoint model_trace (pol : N) (c : config) (s : state) (tr : list (hstep * ev * list hsnap)) : bool :=
   match tr with
   | [] => true
   | (h, e, sn) :: r =>
-      (match h with HSelect _ => oracle_ok pol c s e | _ => true end) &&
-      match hexec c sel s h with
-      | Some (s', e') => ev_eqb e e' && snap_agrees c s' sn && model_trace pol c sel s' r
+      (match h with HSelect _ | HSelPol _ => oracle_ok pol c s e | _ => true end) &&
+      match hexec c (pol_std (c_hosts c)) (if (pol <? 2)%N then psel_of pol c else psel_hint (ev_choice e)) s h with
+      | Some (s', e') => ev_eqb e e' && snap_agrees c s' sn && model_trace pol c s' r
       | None => false
       end
   end.
 
 (* ---- the property's executable statement, evaluated on the observed trace only.
    It keeps its own books from what the harness injected and saw (which transport each
-   request arrived in, which outcomes were injected, how much time was slept) and never
-   calls [step]. ---- *)
+   request arrived in, which outcomes and health verdicts were injected, how much time was slept)
+   and never calls [step]. ---- *)
 Record sbook := {
   b_fwd : list (nat * nat);      (* request t is being forwarded to host h *)
   b_sel : list (nat * nat);      (* request t holds host h handed out by Select and has not been counted yet *)
   b_log : list (nat * Z);        (* injected backend errors (host, time) while counting is enabled *)
   b_now : Z;
-  b_prev : list hsnap            (* previous snapshot *)
+  b_prev : list hsnap;           (* previous snapshot *)
+  b_unh : list bool;             (* verdicts the health-check worker was given / flags the harness stored *)
+  b_since : list (nat * list bool)  (* request t is inside Select: hosts unhealthy since before it entered *)
 }.
 
-Fixpoint lookup_t (t : nat) (l : list (nat * nat)) : option nat :=
+Fixpoint lookup_t {A} (t : nat) (l : list (nat * A)) : option A :=
   match l with
   | [] => None
   | (t', h) :: r => if Nat.eqb t t' then Some h else lookup_t t r
   end.
-Definition drop_t (t : nat) (l : list (nat * nat)) : list (nat * nat) :=
+Definition drop_t {A} (t : nat) (l : list (nat * A)) : list (nat * A) :=
   filter (fun e => negb (Nat.eqb (fst e) t)) l.
+
+Definition sel_result (b : sbook) (t : nat) (e : ev) (sn : list hsnap) : sbook :=
+  match e with
+  | EvMid =>
+      {| b_fwd := b_fwd b; b_sel := drop_t t (b_sel b); b_log := b_log b; b_now := b_now b; b_prev := sn;
+         b_unh := b_unh b; b_since := (t, b_unh b) :: drop_t t (b_since b) |}
+  | _ =>
+      {| b_fwd := b_fwd b;
+         b_sel := match e with EvSel (Some x) => (t, x) :: drop_t t (b_sel b) | _ => drop_t t (b_sel b) end;
+         b_log := b_log b; b_now := b_now b; b_prev := sn; b_unh := b_unh b; b_since := drop_t t (b_since b) |}
+  end.
 
 Definition book_step (ft : Z) (b : sbook) (h : hstep) (e : ev) (sn : list hsnap) : sbook :=
   match h with
-  | HSelect t =>
-      {| b_fwd := b_fwd b;
-         b_sel := match e with EvSel (Some x) => (t, x) :: drop_t t (b_sel b) | _ => drop_t t (b_sel b) end;
-         b_log := b_log b; b_now := b_now b; b_prev := sn |}
+  | HSelect t | HSelScan t | HSelPol t => sel_result b t e sn
   | HBegin t _ =>
-      match e with
-      | EvFwd x => {| b_fwd := (t, x) :: b_fwd b; b_sel := drop_t t (b_sel b); b_log := b_log b; b_now := b_now b; b_prev := sn |}
-      | _ => {| b_fwd := b_fwd b; b_sel := drop_t t (b_sel b); b_log := b_log b; b_now := b_now b; b_prev := sn |}
-      end
+      {| b_fwd := match e with EvFwd x => (t, x) :: b_fwd b | _ => b_fwd b end;
+         b_sel := drop_t t (b_sel b); b_log := b_log b; b_now := b_now b; b_prev := sn;
+         b_unh := b_unh b; b_since := b_since b |}
   | HFinish t o _ =>
       match lookup_t t (b_fwd b) with
       | Some x =>
           {| b_fwd := drop_t t (b_fwd b); b_sel := b_sel b;
              b_log := match o with OError => if 0 <? ft then (x, b_now b) :: b_log b else b_log b | _ => b_log b end;
-             b_now := b_now b; b_prev := sn |}
-      | None => {| b_fwd := b_fwd b; b_sel := b_sel b; b_log := b_log b; b_now := b_now b; b_prev := sn |}
+             b_now := b_now b; b_prev := sn; b_unh := b_unh b; b_since := b_since b |}
+      | None => {| b_fwd := b_fwd b; b_sel := b_sel b; b_log := b_log b; b_now := b_now b; b_prev := sn;
+                   b_unh := b_unh b; b_since := b_since b |}
       end
-  | HWait d => {| b_fwd := b_fwd b; b_sel := b_sel b; b_log := b_log b; b_now := b_now b + d; b_prev := sn |}
-  | _ => {| b_fwd := b_fwd b; b_sel := b_sel b; b_log := b_log b; b_now := b_now b; b_prev := sn |}
+  | HWait d => {| b_fwd := b_fwd b; b_sel := b_sel b; b_log := b_log b; b_now := b_now b + d; b_prev := sn;
+                  b_unh := b_unh b; b_since := b_since b |}
+  | HHealth x v =>
+      {| b_fwd := b_fwd b; b_sel := b_sel b; b_log := b_log b; b_now := b_now b; b_prev := sn;
+         b_unh := set_nth (b_unh b) x v;
+         (* a host declared healthy while a Select is running may be chosen by it from then on *)
+         b_since := if v then b_since b
+                    else map (fun tl : nat * list bool => (fst tl, set_nth (snd tl) x false)) (b_since b) |}
+  | HStream _ => {| b_fwd := b_fwd b; b_sel := b_sel b; b_log := b_log b; b_now := b_now b; b_prev := sn;
+                    b_unh := b_unh b; b_since := b_since b |}
   end.
 
 Definition book_unexpired (ft : Z) (b : sbook) (h : nat) : Z :=
@@ -459,28 +629,46 @@ Definition book_unexpired (ft : Z) (b : sbook) (h : nat) : Z :=
 
 (* a snapshot satisfies the property w.r.t. the books:
    Conns = requests actually in the transport = requests the books say are forwarded;
-   the cap holds; Fails = unexpired injected failures; Down exactly when unhealthy or
-   max_fails unexpired failures; Full exactly when the cap is reached *)
-Definition snap_spec (mc mf ft : Z) (unh : list bool) (b : sbook) (sn : list hsnap) : bool :=
+   the cap holds; Fails = unexpired injected failures; Unhealthy = the last verdict; Down exactly when
+   unhealthy or max_fails unexpired failures; Full exactly when the cap is reached *)
+Definition snap_spec (mc mf ft : Z) (b : sbook) (sn : list hsnap) : bool :=
   forallb (fun hx : nat * hsnap =>
-             let '(h, (oc, of, oi, od, ofl)) := hx in
+             let '(h, (oc, of, oi, od, ofl, ou)) := hx in
              let u := book_unexpired ft b h in
              (oc =? oi) && (oi =? cnt (fun e => Nat.eqb (snd e) h) (b_fwd b)) &&
              ((mc <=? 0) || (oi <=? mc)) &&
              (of =? u) &&
-             bool_eqb od (nth h unh false || (mf <=? u)) &&
+             bool_eqb ou (nth h (b_unh b) false) &&
+             bool_eqb od (nth h (b_unh b) false || (mf <=? u)) &&
              bool_eqb ofl ((0 <? mc) && (mc <=? oi)))
           (combine (seq 0 (length sn)) sn).
 
-(* the host handed out by Select was not down and not full in the (stable) state it was chosen in *)
+Definition snap_avail (x : hsnap) : bool := let '(_, _, _, od, ofl, _) := x in negb od && negb ofl.
+
+(* the answer of a Select (or of its policy phase) that ran while nothing else moved: a host that
+   was neither down nor full in the (stable) state it read; nil only when no host was available *)
 Definition choice_spec (b : sbook) (e : ev) : bool :=
   match e with
   | EvSel (Some h) =>
       match nth_error (b_prev b) h with
-      | Some (_, _, _, od, ofl) => negb od && negb ofl
+      | Some x => snap_avail x
       | None => false
       end
+  | EvSel None => negb (existsb snap_avail (b_prev b))
   | _ => true
+  end.
+
+(* a host that was marked unhealthy before the request entered Select, and has not been declared
+   healthy since, is not the answer of that Select *)
+Definition since_spec (b : sbook) (h : hstep) (e : ev) : bool :=
+  match h, e with
+  | HSelect _, EvSel (Some x) | HSelScan _, EvSel (Some x) => negb (nth x (b_unh b) false)
+  | HSelPol t, EvSel (Some x) =>
+      match lookup_t t (b_since b) with
+      | Some l => negb (nth x l false)
+      | None => false
+      end
+  | _, _ => true
   end.
 
 (* leaving the window: a request that holds a host is forwarded to that very host, unless the host
@@ -492,7 +680,7 @@ Definition begin_spec (b : sbook) (h : hstep) (e : ev) : bool :=
       match lookup_t t (b_sel b), e with
       | Some x, EvFwd y => Nat.eqb x y
       | Some x, _ => match nth_error (b_prev b) x with
-                     | Some (_, _, _, _, ofl) => ofl
+                     | Some (_, _, _, _, ofl, _) => ofl
                      | None => false
                      end
       | None, EvFwd _ => false
@@ -501,16 +689,17 @@ Definition begin_spec (b : sbook) (h : hstep) (e : ev) : bool :=
   | _ => true
   end.
 
-Fixpoint spec_trace (mc mf ft : Z) (unh : list bool) (b : sbook) (tr : list (hstep * ev * list hsnap)) : bool :=
+Fixpoint spec_trace (mc mf ft : Z) (b : sbook) (tr : list (hstep * ev * list hsnap)) : bool :=
   match tr with
   | [] =>
       (* quiescence: every request has left; all in-flight counters are back to zero *)
-      match b_fwd b with [] => forallb (fun x : hsnap => let '(oc, _, oi, _, _) := x in (oc =? 0) && (oi =? 0)) (b_prev b)
+      match b_fwd b with [] => forallb (fun x : hsnap => let '(oc, _, oi, _, _, _) := x in (oc =? 0) && (oi =? 0)) (b_prev b)
                     | _ => true end
   | (h, e, sn) :: r =>
       let b' := book_step ft b h e sn in
-      (match h with HSelect _ => choice_spec b e | _ => true end) && begin_spec b h e &&
-      snap_spec mc mf ft unh b' sn && spec_trace mc mf ft unh b' r
+      (match h with HSelect _ | HSelScan _ | HSelPol _ => choice_spec b e | _ => true end) &&
+      since_spec b h e && begin_spec b h e &&
+      snap_spec mc mf ft b' sn && spec_trace mc mf ft b' r
   end.
 
 (* ---- parsing of max_fails (upstream.go parseBlock): strconv.ParseInt(s, 10, 32) — a range error
@@ -521,6 +710,11 @@ Definition fits_int32 (n : Z) : bool := (-2147483648 <=? n) && (n <? 2147483648)
 Definition parse_max_fails (n : Z) : option Z :=
   if fits_int32 n then (if n <? 1 then None else Some (wrap_int32 n)) else None.
 
+(* free-running stress, per host: max simultaneous forwards seen in the transport; min and max of
+   Conns read from inside the transport; number of such reads where Conns was below the number of
+   requests inside the transport at that moment; final Conns; final Fails; backend errors injected *)
+Definition sobs := (Z * Z * Z * Z * Z * Z * Z)%type.
+
 Inductive case :=
 | CSched (hosts : nat) (mc mf ft : Z) (unh : list bool) (pol : N) (nthreads : nat)
          (snap0 : list hsnap) (trace : list (hstep * ev * list hsnap))
@@ -530,29 +724,31 @@ Inductive case :=
   (* free-running stress: per host (max simultaneous forwards seen in the transport,
      min Conns read from inside the transport, final Conns, final Fails) *)
 | CStress (hosts : nat) (mc : Z) (nthreads : nat) (obs : list (Z * Z * Z * Z)) (all_answered : bool)
+  (* free-running stress with thousands of requests and random outcomes; [keep]: fail_timeout is 1h, so
+     every recorded failure is still counted at the end *)
+| CStress2 (hosts : nat) (mc : Z) (keep : bool) (nreq : Z) (obs : list sobs) (answered : Z)
   (* one request through the REAL http.Transport to a loopback backend that answers, drops the
      connection, or is abandoned by the client: status, Conns while the backend holds the request,
      Conns and Fails afterwards (max_fails 1, fail_timeout 1h, max_conns 5) *)
 | CLive (o : outcome) (code conns_during conns_after fails_after : Z).
 
-Definition mk_config (hosts : nat) (mc mf ft : Z) (unh : list bool) : config :=
-  {| c_hosts := hosts; c_max_conns := mc; c_max_fails := mf; c_fail_timeout := ft;
-     c_unhealthy := fun h => nth h unh false |}.
+Definition mk_config (hosts : nat) (mc mf ft : Z) : config :=
+  {| c_hosts := hosts; c_max_conns := mc; c_max_fails := mf; c_fail_timeout := ft |}.
 
-Definition init_threads (r : N) (n : nat) : state :=
-  {| conns := fun _ => 0; fails := fun _ => 0; timers := []; fired := []; flog := []; now := 0;
+Definition init_threads (r : N) (u : nat -> bool) (n : nat) : state :=
+  {| conns := fun _ => 0; fails := fun _ => 0; unhealthy := u; flog := []; now := 0;
      threads := repeat Idle n; robin := r |}.
 
 Definition judge (c : case) : N :=
   match c with
   | CSched hosts mc mf ft unh pol nthreads snap0 trace =>
-      let cfg := mk_config hosts mc mf ft unh in
-      let s0 := init_threads 0 nthreads in
-      let sel := if (pol <? 2)%N then sel_of pol cfg else sel_tape (tape_of trace) in
-      let agree := snap_agrees cfg s0 snap0 && model_trace pol cfg sel s0 trace in
-      let b0 := {| b_fwd := []; b_sel := []; b_log := []; b_now := 0; b_prev := snap0 |} in
-      let spec := (length snap0 =? hosts)%nat && snap_spec mc mf ft unh b0 snap0 &&
-                  spec_trace mc mf ft unh b0 trace in
+      let cfg := mk_config hosts mc mf ft in
+      let s0 := init_threads 0 (fun h => nth h unh false) nthreads in
+      let agree := snap_agrees cfg s0 snap0 && model_trace pol cfg s0 trace in
+      let b0 := {| b_fwd := []; b_sel := []; b_log := []; b_now := 0; b_prev := snap0;
+                   b_unh := unh ++ repeat false (hosts - length unh); b_since := [] |} in
+      let spec := (length snap0 =? hosts)%nat && snap_spec mc mf ft b0 snap0 &&
+                  spec_trace mc mf ft b0 trace in
       verdict agree spec
   | CMaxFails n k accepted obs_down =>
       let m_acc := match parse_max_fails n with Some _ => true | None => false end in
@@ -577,16 +773,32 @@ Definition judge (c : case) : N :=
                   forallb (fun x : Z * Z * Z * Z => let '(mx, mn, fc, ff) := x in
                              ((mc <=? 0) || (mx <=? mc)) && (1 <=? mn) && (fc =? 0) && (ff =? 0)) obs in
       verdict agree spec
+  | CStress2 hosts mc keep nreq obs answered =>
+      (* what the theorems say about the observables of ANY run: Conns counts the requests between
+         acquire and release, so it is never below what is inside the transport, never above the cap,
+         zero at quiescence; Fails is the number of failures whose expiry has not run: all of them while
+         fail_timeout is an hour, none once every timer has run *)
+      let ok := fun x : sobs =>
+                  let '(mx, mn, mxc, low, fc, ff, ne) := x in
+                  ((mc <=? 0) || ((mx <=? mc) && (mxc <=? mc))) && (1 <=? mn) && (low =? 0) &&
+                  (mx <=? mxc) && (fc =? 0) && (ff =? (if keep then ne else 0)) in
+      let agree := (length obs =? hosts)%nat && forallb ok obs in
+      let spec := (answered =? nreq) && forallb ok obs in
+      verdict agree spec
   | CLive o code cd ca fa =>
-      let cfg := mk_config 1 5 1 1000000000 [] in
-      let sel := sel_first cfg in
-      let s0 := init_threads 0 1 in
+      let cfg := mk_config 1 5 1 1000000000 in
+      let pol := pol_std 1 in
+      let s0 := init_threads 0 (fun _ => false) 1 in
       let agree :=
-        match run cfg sel s0 [LSelect 0; LBegin 0] with
-        | Some s1 =>
-            (conns s1 0%nat =? cd) &&
-            match hexec cfg sel s1 (HFinish 0 o false) with
-            | Some (s2, e) => ev_eqb e (EvDone code) && (conns s2 0%nat =? ca) && (fails s2 0%nat =? fa)
+        match hexec cfg pol (pol_first cfg) s0 (HSelect 0) with
+        | Some (s0', _) =>
+            match hexec cfg pol (pol_first cfg) s0' (HBegin 0 false) with
+            | Some (s1, _) =>
+                (conns s1 0%nat =? cd) &&
+                match hexec cfg pol (pol_first cfg) s1 (HFinish 0 o false) with
+                | Some (s2, e) => ev_eqb e (EvDone code) && (conns s2 0%nat =? ca) && (fails s2 0%nat =? fa)
+                | None => false
+                end
             | None => false
             end
         | None => false
